@@ -65,12 +65,13 @@ theorem table_nodup : (metaTable.map (·.1)).Nodup := by decide
 /-- the three segments `MarshalMsg` writes -/
 def segMeta (p : Pay) : List (String × Val) :=
   metaTable.filterMap fun e => (p.md.get e.1).map fun mv => (e.1, mvalVal mv)
-def segMemo (p : Pay) : List (String × Val) :=
-  (p.memo.filter fun kv => (tableKind kv.1).isNone).map fun kv => (kv.1, toWire kv.2)
+def segMemoW (w : Val → Val) (p : Pay) : List (String × Val) :=
+  (p.memo.filter fun kv => (tableKind kv.1).isNone).map fun kv => (kv.1, w kv.2)
 def segRaw (p : Pay) : List (String × Val) :=
   p.raw.filter fun kv => !(AList.keys p.memo).contains kv.1 && (tableKind kv.1).isNone
 
-theorem marshal_eq (p : Pay) : marshal p = segMeta p ++ segMemo p ++ segRaw p := rfl
+theorem marshalW_eq (w : Val → Val) (p : Pay) : marshalW w p = segMeta p ++ segMemoW w p ++ segRaw p := rfl
+theorem marshal_isW (p : Pay) : marshal p = marshalW toWire p := rfl
 
 theorem segMeta_keys_sub (p : Pay) : (keysOf (segMeta p)).Sublist (metaTable.map (·.1)) := by
   unfold segMeta keysOf
@@ -88,9 +89,9 @@ theorem segMeta_reserved {p : Pay} {k : String} (h : k ∈ keysOf (segMeta p)) :
   obtain ⟨e, he, rfl⟩ := List.mem_map.mp h1
   exact table_kinds e he
 
-theorem segMemo_keys {p : Pay} {k : String} (h : k ∈ keysOf (segMemo p)) :
+theorem segMemo_keys {w : Val → Val} {p : Pay} {k : String} (h : k ∈ keysOf (segMemoW w p)) :
     k ∈ AList.keys p.memo ∧ tableKind k = none := by
-  unfold segMemo keysOf at h
+  unfold segMemoW keysOf at h
   simp only [List.map_map, List.mem_map, List.mem_filter, Function.comp] at h
   obtain ⟨kv, ⟨hm, hn⟩, rfl⟩ := h
   exact ⟨List.mem_map.mpr ⟨kv, hm, rfl⟩, by simpa using hn⟩
@@ -108,14 +109,14 @@ theorem segRaw_keys {p : Pay} {k : String} (h : k ∈ keysOf (segRaw p)) :
 
 /-- **no_dup_keys** — `MarshalMsg` never writes a key twice: if the client's keys are unique (and the
 memoised map, a Go map, has unique keys), the re-encoded map has unique keys. -/
-theorem no_dup_keys (p : Pay) (hm : AList.NoDupKeys p.memo) (hr : (keysOf p.raw).Nodup) :
-    (keysOf (marshal p)).Nodup := by
-  rw [marshal_eq]
+theorem no_dup_keysW (w : Val → Val) (p : Pay) (hm : AList.NoDupKeys p.memo) (hr : (keysOf p.raw).Nodup) :
+    (keysOf (marshalW w p)).Nodup := by
+  rw [marshalW_eq]
   unfold keysOf
   rw [List.map_append, List.map_append]
   have hA : (keysOf (segMeta p)).Nodup := List.Nodup.sublist (segMeta_keys_sub p) table_nodup
-  have hB : (keysOf (segMemo p)).Nodup := by
-    unfold segMemo keysOf
+  have hB : (keysOf (segMemoW w p)).Nodup := by
+    unfold segMemoW keysOf
     rw [List.map_map]
     exact List.Nodup.sublist (List.Sublist.map _ List.filter_sublist) hm
   have hC : (keysOf (segRaw p)).Nodup := by
@@ -135,11 +136,14 @@ theorem no_dup_keys (p : Pay) (hm : AList.NoDupKeys p.memo) (hr : (keysOf p.raw)
       cases h1
     · exact (segRaw_keys hb).1 (segMemo_keys ha).1
 
+theorem no_dup_keys (p : Pay) (hm : AList.NoDupKeys p.memo) (hr : (keysOf p.raw).Nodup) :
+    (keysOf (marshal p)).Nodup := no_dup_keysW toWire p hm hr
+
 /-- where `MarshalMsg` takes a non-reserved key from: the memoised map wins over the raw bytes -/
-theorem marshal_get (p : Pay) {k : String} (hk : tableKind k = none) :
-    AList.get (marshal p) k =
+theorem marshalW_get (w : Val → Val) (p : Pay) {k : String} (hk : tableKind k = none) :
+    AList.get (marshalW w p) k =
       match AList.get p.memo k with
-      | some v => some (toWire v)
+      | some v => some (w v)
       | none => AList.get p.raw k := by
   have hA : AList.get (segMeta p) k = none := by
     apply get_none_of_not_key
@@ -147,8 +151,8 @@ theorem marshal_get (p : Pay) {k : String} (hk : tableKind k = none) :
     have := segMeta_reserved (p := p) h
     rw [hk] at this
     cases this
-  have hB : AList.get (segMemo p) k = (AList.get p.memo k).map toWire := by
-    unfold segMemo
+  have hB : AList.get (segMemoW w p) k = (AList.get p.memo k).map w := by
+    unfold segMemoW
     rw [get_map_val, get_filter_key (fun k => (tableKind k).isNone)]
     simp [hk]
   have hC : AList.get (segRaw p) k = if (AList.keys p.memo).contains k = true then none else AList.get p.raw k := by
@@ -156,7 +160,7 @@ theorem marshal_get (p : Pay) {k : String} (hk : tableKind k = none) :
     rw [get_filter_key (fun k => !(AList.keys p.memo).contains k && (tableKind k).isNone)]
     simp only [hk, Option.isNone_none, Bool.and_true, Bool.not_eq_true']
     cases (AList.keys p.memo).contains k <;> simp
-  rw [marshal_eq, get_append, get_append, hA, hB, hC]
+  rw [marshalW_eq, get_append, get_append, hA, hB, hC]
   cases hg : AList.get p.memo k with
   | some v => simp
   | none =>
@@ -166,6 +170,12 @@ theorem marshal_get (p : Pay) {k : String} (hk : tableKind k = none) :
       · rfl
       · exact absurd (List.contains_iff_mem.mp h) this
     simp [this]
+
+theorem marshal_get (p : Pay) {k : String} (hk : tableKind k = none) :
+    AList.get (marshal p) k =
+      match AList.get p.memo k with
+      | some v => some (toWire v)
+      | none => AList.get p.raw k := marshalW_get toWire p hk
 
 /-! ## Reachable payload states -/
 
@@ -366,12 +376,12 @@ theorem applyOps_inv {fs : List (String × Val)} :
 /-- what a memoised value looks like when it is written again -/
 def rt (v : Val) : Val := toWire (goNorm v)
 
-theorem marshal_of_inv {fs : List (String × Val)} {S : List String} {p : Pay} (hnd : (keysOf fs).Nodup)
-    (h : Inv fs S p) {k : String} (hk : tableKind k = none) (hS : k ∉ S) :
+theorem marshalW_of_inv (w : Val → Val) {fs : List (String × Val)} {S : List String} {p : Pay}
+    (hnd : (keysOf fs).Nodup) (h : Inv fs S p) {k : String} (hk : tableKind k = none) (hS : k ∉ S) :
     match AList.get fs k with
-    | none => AList.get (marshal p) k = none
-    | some v => AList.get (marshal p) k = some v ∨ AList.get (marshal p) k = some (rt v) := by
-  rw [marshal_get p hk, h.1]
+    | none => AList.get (marshalW w p) k = none
+    | some v => AList.get (marshalW w p) k = some v ∨ AList.get (marshalW w p) k = some (w (goNorm v)) := by
+  rw [marshalW_get w p hk, h.1]
   have hnd' : AList.NoDupKeys fs := hnd
   cases hm : AList.get p.memo k with
   | some v =>
@@ -385,6 +395,13 @@ theorem marshal_of_inv {fs : List (String × Val)} {S : List String} {p : Pay} (
     cases hf : AList.get fs k with
     | none => rfl
     | some v => exact Or.inl rfl
+
+theorem marshal_of_inv {fs : List (String × Val)} {S : List String} {p : Pay} (hnd : (keysOf fs).Nodup)
+    (h : Inv fs S p) {k : String} (hk : tableKind k = none) (hS : k ∉ S) :
+    match AList.get fs k with
+    | none => AList.get (marshal p) k = none
+    | some v => AList.get (marshal p) k = some v ∨ AList.get (marshal p) k = some (rt v) :=
+  marshalW_of_inv toWire hnd h hk hS
 
 /-- **marshal_extract_id** (`/1/batch`, msgpack or JSON) — after any sequence of `MemoizeFields` and
 `Set` calls, for every key that is not a reserved metadata name and that Refinery did not `Set`
@@ -540,14 +557,18 @@ theorem marshal_extract_id_events {cfg : Cfg} {f2i : Nat → Int} {fs ord : List
 
 /-! ## Through Go and back: `memo_roundtrip` -/
 
-/-- full-strength statement: a memoised value is written back with the wire type it came with -/
-def MemoRoundtrip : Prop := ∀ v : Val, (rt v).tag = v.tag
+/-- full-strength statement for a writer `w` of memoised values: the value is written back with the
+wire type it came with (an unsigned value up to 127 as the positive fixint — the same msgpack integer) -/
+def MemoRoundtripOf (w : Val → Val) : Prop :=
+  ∀ v : Val, (w (goNorm v)).tag = v.tag ∨ ∃ n, v = .uint n ∧ n ≤ 127 ∧ w (goNorm v) = .int n
+
+def MemoRoundtrip : Prop := MemoRoundtripOf toWire
 
 theorem memo_roundtrip_refuted : ¬ MemoRoundtrip := by
   intro h
-  have := h (.time 1700000000 5)
-  revert this
-  decide
+  rcases h (.time 1700000000 5) with h1 | ⟨n, hn, _⟩
+  · revert h1; decide
+  · cases hn
 
 /-- **memo_roundtrip (partial)** — every wire type except the timestamp keeps its type (an unsigned
 value up to 127 is written as the positive fixint, which is the same msgpack integer). -/
@@ -577,6 +598,191 @@ theorem toWireL_eq (l : List Val) : toWireL l = l.map toWire := by
 theorem memo_roundtrip_arr (l : List Val) : rt (.arr l) = .arr (l.map rt) := by
   simp [rt, goNorm, toWire, goNormL_eq, toWireL_eq, Function.comp_def]
 
+/-! ## The repaired variants (`Fixed` flags)
+
+The oracle runs `ingestBatchF` / `ingestMetaF` / `ingestMapF` / `marshalF` with `fixedNow`; with no
+flag set these are the functions above.  The theorems below hold for **every** combination of flags
+(so they keep describing the model whichever repairs are in), and `memo_roundtrip_fixed` is the full
+statement for repair 03 (`memoTime`: memoised timestamps are written with `AppendTimeExt`). -/
+
+theorem fixed_none_marshal (p : Pay) : marshalF {} p = marshal p := rfl
+theorem fixed_none_batch (cfg : Cfg) (fs : List (String × Val)) : ingestBatchF {} cfg fs = ingestBatch cfg fs := rfl
+
+theorem wstepN_invM {fs : List (String × Val)} {S : List String} {fx : Fixed} {cfg : Cfg} {sk : List String}
+    {st st' : (Pay × Nat) × (String × Nat)} {kv : String × Val} (hkv : kv ∈ fs) (h : InvM fs S st.1.1)
+    (hs : wstepN fx cfg sk st kv = some st') : InvM fs S st'.1.1 := by
+  unfold wstepN at hs
+  cases hd : metaDecode kv.1 kv.2 with
+  | err => rw [hd] at hs; simp at hs
+  | done mv =>
+    rw [hd] at hs
+    simp only [Option.some.injEq] at hs
+    subst hs
+    exact h
+  | skip =>
+    rw [hd] at hs
+    simp only at hs
+    by_cases hc : fx.configuredOrder = true
+    · simp only [hc, if_true] at hs
+      cases hf : idFallC cfg st.1.1.md.id st.2 kv.1 kv.2 with
+      | some ic =>
+        rw [hf] at hs
+        simp only [Option.some.injEq] at hs
+        subst hs
+        exact h
+      | none =>
+        rw [hf] at hs
+        simp only [Option.some.injEq] at hs
+        subst hs
+        exact wireKey_invM (k := kv.1) (w := kv.2) hkv h
+    · have hc' : fx.configuredOrder = false := by simpa using hc
+      simp only [hc', Bool.false_eq_true, if_false] at hs
+      cases hf : idFall cfg st.1.1.md.id kv.1 kv.2 with
+      | some i =>
+        rw [hf] at hs
+        simp only [Option.some.injEq] at hs
+        subst hs
+        exact h
+      | none =>
+        rw [hf] at hs
+        simp only [Option.some.injEq] at hs
+        subst hs
+        exact wireKey_invM (k := kv.1) (w := kv.2) hkv h
+
+theorem wfoldN_invM {fs : List (String × Val)} {S : List String} {fx : Fixed} {cfg : Cfg} {sk : List String} :
+    ∀ (t : List (String × Val)) (st st' : (Pay × Nat) × (String × Nat)), (∀ kv ∈ t, kv ∈ fs) →
+      InvM fs S st.1.1 → wfoldN fx cfg sk st t = some st' → InvM fs S st'.1.1
+  | [], st, st', _, h, hs => by simp [wfoldN] at hs; subst hs; exact h
+  | kv :: t, st, st', hsub, h, hs => by
+    unfold wfoldN at hs
+    cases h1 : wstepN fx cfg sk st kv with
+    | none => rw [h1] at hs; simp at hs
+    | some st1 =>
+      rw [h1] at hs
+      exact wfoldN_invM t st1 st' (fun x hx => hsub x (List.mem_cons_of_mem _ hx))
+        (wstepN_invM (hsub kv List.mem_cons_self) h h1) hs
+
+theorem extractWireF_invM {fs : List (String × Val)} {fx : Fixed} {cfg : Cfg} {sk : List String} {p1 : Pay}
+    (h : extractWireF fx cfg sk {} fs = some p1) : InvM fs [] p1 := by
+  unfold extractWireF at h
+  split at h
+  · unfold extractWireN at h
+    cases hw : wfoldN fx cfg sk (({ ({} : Pay) with md := initRoot ({} : Pay).md, isEmpty := ({} : Pay).isEmpty || fs.isEmpty }, 0), ("", cfg.tn.length)) fs with
+    | none => rw [hw] at h; simp at h
+    | some r =>
+      obtain ⟨⟨q, found⟩, c⟩ := r
+      rw [hw] at h
+      simp only [Option.some.injEq] at h
+      subst h
+      have h0 : InvM fs [] (({ ({} : Pay) with md := initRoot ({} : Pay).md, isEmpty := ({} : Pay).isEmpty || fs.isEmpty }, 0), ("", cfg.tn.length)).1.1 :=
+        ⟨AList.nodup_nil, fun k v hv => by simp at hv⟩
+      have := wfoldN_invM (S := []) fs _ _ (fun _ hx => hx) h0 hw
+      by_cases c : found < sk.length <;> simpa [c, InvM] using this
+  · exact extractWire_invM h
+
+theorem ingestBatchF_inv {fs : List (String × Val)} {fx : Fixed} {cfg : Cfg} {p0 : Pay}
+    (h : ingestBatchF fx cfg fs = some p0) : Inv fs [] p0 := by
+  unfold ingestBatchF at h
+  cases he : extractWireF fx cfg cfg.sk {} fs with
+  | none => rw [he] at h; simp at h
+  | some p1 =>
+    rw [he] at h
+    simp only at h
+    split at h
+    · cases h
+    · simp only [Option.some.injEq] at h
+      subst h
+      have := extractWireF_invM he
+      exact ⟨by rw [addUA_raw], by unfold InvM at this ⊢; rw [addUA_memo]; exact this⟩
+
+theorem ingestMetaF_inv {fs : List (String × Val)} {fx : Fixed} {cfg : Cfg} {p0 : Pay}
+    (h : ingestMetaF fx cfg fs = some p0) : Inv fs [] p0 := by
+  unfold ingestMetaF at h
+  cases he : extractWireF fx cfg [] {} fs with
+  | none => rw [he] at h; simp at h
+  | some p1 =>
+    rw [he] at h
+    simp only [Option.some.injEq] at h
+    subst h
+    have := extractWireF_invM he
+    exact ⟨by rw [addUA_raw], by unfold InvM at this ⊢; rw [addUA_memo]; exact this⟩
+
+theorem extractMapF_memo {fx : Fixed} {cfg : Cfg} {f2i : Nat → Int} {p p' : Pay} {ord : List (String × Val)}
+    (hr : p.raw = []) (h : extractMapF fx cfg f2i p ord = some p') : p'.memo = p.memo ∧ p'.raw = [] := by
+  unfold extractMapF at h
+  split at h
+  · unfold extractMapN at h
+    split at h
+    · cases h; exact ⟨rfl, hr⟩
+    · simp only [hr, List.isEmpty_nil, if_true, Option.some.injEq] at h
+      subst h
+      exact ⟨rfl, rfl⟩
+  · exact extractMap_memo hr h
+
+theorem ingestMapF_inv {fx : Fixed} {cfg : Cfg} {f2i : Nat → Int} {fs ord : List (String × Val)} {p0 : Pay}
+    (hnd : (keysOf fs).Nodup) (h : ingestMapF fx cfg f2i fs ord = some p0) : InvJ fs [] p0 := by
+  unfold ingestMapF at h
+  split at h
+  · cases h
+  · have hr : (addUA cfg { memo := memoOfJSON fs }).raw = [] := by rw [addUA_raw]
+    obtain ⟨h1, h2⟩ := extractMapF_memo hr h
+    refine ⟨h2, ?_, ?_⟩
+    · rw [h1, addUA_memo]; exact memoOfJSON_nodup fs
+    · intro k _
+      rw [h1, addUA_memo]; exact memoOfJSON_get hnd k
+
+/-- a memoised value as the (possibly repaired) `MarshalMsg` writes it -/
+def rtF (fx : Fixed) (v : Val) : Val := toWireF fx (goNorm v)
+
+/-- **marshal_extract_id** for every combination of repairs (`/1/batch`) -/
+theorem marshal_extract_id_fixed (fx : Fixed) {cfg : Cfg} {fs : List (String × Val)} {p0 : Pay} (ops : List Op)
+    (hnd : (keysOf fs).Nodup) (h0 : ingestBatchF fx cfg fs = some p0) {k : String} (hk : tableKind k = none)
+    (hS : k ∉ setKeys ops) :
+    match AList.get fs k with
+    | none => AList.get (marshalF fx (applyOps p0 ops)) k = none
+    | some v => AList.get (marshalF fx (applyOps p0 ops)) k = some v ∨
+        AList.get (marshalF fx (applyOps p0 ops)) k = some (rtF fx v) := by
+  have := applyOps_inv ops [] p0 (ingestBatchF_inv h0)
+  exact marshalW_of_inv (toWireF fx) hnd this hk (by simpa using hS)
+
+theorem marshal_extract_id_fixed_otlp (fx : Fixed) {cfg : Cfg} {fs : List (String × Val)} {p0 : Pay} (ops : List Op)
+    (hnd : (keysOf fs).Nodup) (h0 : ingestMetaF fx cfg fs = some p0) {k : String} (hk : tableKind k = none)
+    (hS : k ∉ setKeys ops) :
+    match AList.get fs k with
+    | none => AList.get (marshalF fx (applyOps p0 ops)) k = none
+    | some v => AList.get (marshalF fx (applyOps p0 ops)) k = some v ∨
+        AList.get (marshalF fx (applyOps p0 ops)) k = some (rtF fx v) := by
+  have := applyOps_inv ops [] p0 (ingestMetaF_inv h0)
+  exact marshalW_of_inv (toWireF fx) hnd this hk (by simpa using hS)
+
+theorem marshal_extract_id_fixed_events (fx : Fixed) {cfg : Cfg} {f2i : Nat → Int} {fs ord : List (String × Val)}
+    {p0 : Pay} (ops : List Op) (hnd : (keysOf fs).Nodup) (h0 : ingestMapF fx cfg f2i fs ord = some p0)
+    {k : String} (hk : tableKind k = none) (hS : k ∉ setKeys ops) :
+    AList.get (marshalF fx (applyOps p0 ops)) k = (AList.get fs k).map (rtF fx) := by
+  have h := applyOps_invJ ops [] p0 (ingestMapF_inv hnd h0)
+  unfold marshalF
+  rw [marshalW_get _ _ hk, h.1, h.2.2 k (by simpa using hS)]
+  cases AList.get fs k <;> simp [rtF]
+
+theorem no_dup_keys_reachable_fixed (fx : Fixed) {cfg : Cfg} {fs : List (String × Val)} {p0 : Pay} (ops : List Op)
+    (hnd : (keysOf fs).Nodup) (h0 : ingestBatchF fx cfg fs = some p0) :
+    (keysOf (marshalF fx (applyOps p0 ops))).Nodup := by
+  have := applyOps_inv ops [] p0 (ingestBatchF_inv h0)
+  exact no_dup_keysW _ _ this.2.1 (by rw [this.1]; exact hnd)
+
+/-- **memo_roundtrip, full statement, with repair 03** — every memoised value, timestamps included,
+is written back with the wire type it came with. -/
+theorem memo_roundtrip_fixed {fx : Fixed} (h : fx.memoTime = true) : MemoRoundtripOf (toWireF fx) := by
+  intro v
+  cases v <;> simp [toWireF, h, toWireT, goNorm, Val.tag]
+  rename_i n
+  by_cases c : n ≤ 127 <;> simp [c]
+
+/-- with repair 03 every scalar, timestamps included, comes back identical -/
+theorem memo_roundtrip_fixed_scalar {fx : Fixed} (h : fx.memoTime = true) (v : Val) (ha : v.tag ≠ .arr)
+    (hm : v.tag ≠ .map) (hu : ∀ n, v = .uint n → 127 < n) : rtF fx v = v := by
+  cases v <;> simp_all [rtF, toWireF, toWireT, goNorm, Val.tag]
+
 /-! Non-vacuity: concrete payloads, evaluated by the kernel. -/
 
 def cfgE : Cfg := { tn := ["trace.trace_id"], pn := ["trace.parent_id"], sk := ["name", "when"] }
@@ -591,5 +797,8 @@ example : (ingestBatch cfgE fsE).map (fun p => (AList.get (marshal p) "when").ma
     some (some .ext5) := by decide
 example : (ingestBatch cfgE fsE).map (fun p => (AList.get (marshal (applyOps p [.memo ["n"], .set "added" (.str "a")])) "n").map Val.tag) =
     some (some .int) := by decide
+
+example : (ingestBatchF { memoTime := true } cfgE fsE).map
+    (fun p => (AList.get (marshalF { memoTime := true } p) "when").map Val.tag) = some (some .time) := by decide
 
 end Refinery.Props.C20
